@@ -244,6 +244,16 @@ func genPanics() {
 	m.raw("zeroLenIndexWrites", "List (String × String × String)", leanTriples(writes),
 		"every x[i] = … into a slice x created with make([]T, 0, …) in the same function: (file, function, statement)", writes)
 
+	// implicit sites: optional-pointer dereferences, slice indexing, map writes (gen_panics_deref.go)
+	func() {
+		defer func() {
+			if r := recover(); r != nil {
+				fail("PanicSites: deref inventory: %v", r)
+			}
+		}()
+		genDerefSites(m)
+	}()
+
 	// statement lists of the mirrored functions (the Lean mirrors are pinned to these texts)
 	body := func(name, rel, recv, fn string) {
 		defer func() {
@@ -277,6 +287,19 @@ func genPanics() {
 	body("funcPredicateDeleteBody", "internal/mode/static/state/changed_predicate.go", "funcPredicate", "delete")
 	body("storeUpsertOuterBody", "internal/mode/static/state/store.go", "changeTrackingUpdater", "Upsert")
 	body("storeDeleteOuterBody", "internal/mode/static/state/store.go", "changeTrackingUpdater", "Delete")
+	// task C05-nil: the functions mirrored in lean/NGF/Model/NilGuards.lean
+	body("validateBackendRefBody", g+"backend_refs.go", "", "validateBackendRef")
+	body("getConfiguratorForListenerBody", g+"gateway_listener.go", "listenerConfiguratorFactory", "getConfiguratorForListener")
+	body("configureListenerBody", g+"gateway_listener.go", "listenerConfigurator", "configure")
+	body("createHTTPSListenerValidatorBody", g+"gateway_listener.go", "", "createHTTPSListenerValidator")
+	body("tlsSecretsResolverBody", g+"gateway_listener.go", "", "createExternalReferencesForTLSSecretsResolver")
+	body("processBackendTLSPoliciesBody", g+"backend_tls_policy.go", "", "processBackendTLSPolicies")
+	body("validateFilterHeaderModifierBody", g+"common_filter.go", "", "validateFilterHeaderModifier")
+	body("validateFilterRedirectBody", g+"httproute.go", "", "validateFilterRedirect")
+	body("validateFilterRewriteBody", g+"httproute.go", "", "validateFilterRewrite")
+	body("convertPathModifierBody", "internal/mode/static/state/dataplane/convert.go", "", "convertPathModifier")
+	body("createHTTPFiltersBody", "internal/mode/static/state/dataplane/configuration.go", "", "createHTTPFilters")
+	body("buildServersBody", "internal/mode/static/state/dataplane/configuration.go", "", "buildServers")
 
 	// the condition guarding Resolve's panic and the loop of upsertRoute that fills both host maps
 	func() {
